@@ -29,7 +29,9 @@ Inductive beh :=
 | BOk (yields : nat)            (* returns nil after some internal steps *)
 | BErr (reason : Z)             (* returns an error: the process terminates with it *)
 | BPanic                        (* panics: recovered, reason = panic *)
-| BCall (yields : nat).         (* makes a synchronous Call (waitResponse), then returns nil *)
+| BCall (yields : nat)          (* makes a synchronous Call (waitResponse), then returns nil *)
+| BExit (reason : Z).           (* an exit signal from the parent (sendExitMessage: no alive check; the actor loop
+                                   returns the reason without calling a behaviour callback) *)
 
 Definition rkill : Z := 1.
 Definition rpanic : Z := 2.
@@ -175,6 +177,7 @@ Definition enter_cb (m : msg) : pc :=
   | BErr _ => R_cb m 0
   | BPanic => R_cb m 0
   | BCall n => R_call m n
+  | BExit r => R_swapT r
   end.
 
 (* one step of one thread: new shared state, new pc, goroutine spawned by the step *)
@@ -185,7 +188,8 @@ Definition step_pc (s : shared) (p : pc) : option (shared * pc * option pc) :=
       if (if b then innames s else intable s) then Some (s, S_alive b m todo, None)
       else Some (add_err s (mid m), next_send b todo, None)
   | S_alive b m todo =>
-      if alive (st s) then Some (s, S_push b m todo, None)
+      (* RouteSend*: isAlive; sendExitMessage ("exit.alive") does not look at the state *)
+      if alive (st s) || (match mbeh m with BExit _ => true | _ => false end) then Some (s, S_push b m todo, None)
       else Some (add_err s (mid m), next_send b todo, None)
   | S_push b m todo =>
       match limit s with
@@ -217,7 +221,7 @@ Definition step_pc (s : shared) (p : pc) : option (shared * pc * option pc) :=
   | R_cb m O =>
       match mbeh m with
       | BOk _ | BCall _ => Some (s, R_state, None)
-      | BErr e => Some (s, R_swapT e, None)
+      | BErr e | BExit e => Some (s, R_swapT e, None)
       | BPanic => Some (s, R_swapT rpanic, None)
       end
   | R_call m n =>
